@@ -201,6 +201,24 @@ def build_cases(ck, tmp, variant=0):
             f2 = dict(files)
             f2[cp] = child_bytes
             cases.append((desc, f2, {"kind": "dependency_path", "alg": alg, "depth": depth, "child": child_bytes}))
+    # a dependency file that was NOT produced by this tool's create: text-keyed members interleave payloads and a nested envelope
+    # (parse-then-serialise would regroup them) — it must be embedded byte for byte, whatever its extension
+    import hashlib as _h
+    def _hand(seq, members):
+        man = cbor2.dumps({1: 1, 2: seq, 3: cbor2.dumps({2: [[b"H", bytes([seq])]]})})
+        m = {2: cbor2.dumps([cbor2.dumps([-16, _h.sha256(cbor2.dumps(man)).digest()])]), 3: man}
+        m.update(members)
+        return cbor2.dumps(cbor2.CBORTag(107, m))
+    inner = _hand(1 + variant, {})
+    hand_child = _hand(2 + variant, {"#a.bin": blob(5 + variant, 1), "#inner.suit": inner, "#b.bin": blob(7, 2 + variant)})
+    for ext in (".suit", ".bin"):
+        hp = fpath(hand_child, "hand_child" + ext)
+        alg = algs[variant % 5]
+        desc = base_env({"suit-install": [{"suit-directive-override-parameters": {
+            "suit-parameter-image-digest": {"suit-digest-algorithm-id": alg, "suit-digest-bytes": {"envelope": hp}},
+            "suit-parameter-image-size": {"envelope": hp}}}]},
+            {"suit-integrated-dependencies": {"#child": hp}})
+        cases.append((desc, {hp: hand_child}, {"kind": "dependency_path", "alg": alg, "depth": 2, "child": hand_child, "form": "hand-built, interleaved members" + ext}))
     return cases
 
 
